@@ -147,6 +147,18 @@ def lastSegAvailMS (startS atoMS : Nat) (T : Nat) (lsi : LastSeg) : Nat :=
   if lsi.nr < 0 then startS * 1000
   else (((lsi.start + lsi.dur) * 1000 + T - 1) / T + startS * 1000) - atoMS |> max (startS * 1000)
 
+/-- the instant (ms) at which the first listed entry `(t, d)` became the first one: its end passed the start of the
+window, `end + tsbd − ato`; if that is still ahead of `nowMS` it has been first since the start of the stream -/
+def firstChangeMS (startS atoMS tsbdMS nowMS T : Nat) (first : Nat × Nat) : Nat :=
+  let t := ((first.1 + first.2) * 1000 + T - 1) / T + startS * 1000 + tsbdMS - atoMS
+  if t ≤ nowMS then t else startS * 1000
+
+/-- `calcPublishTimeMS` (`fix:` commit): the later of the two instants at which the timeline last changed -/
+def publishMS (startS atoMS tsbdMS nowMS T : Nat) (lsi : LastSeg) (entries : List (Nat × Nat)) : Nat :=
+  match entries.head? with
+  | none => lastSegAvailMS startS atoMS T lsi
+  | some f => max (lastSegAvailMS startS atoMS T lsi) (firstChangeMS startS atoMS tsbdMS nowMS T f)
+
 /-- `adjustAdaptationSetForSegmentNumber`: duration / timescale when the VoD template has no duration -/
 def numberTemplate (a : Asset) (d : ASDef) (r : Rep) : Option (Nat × Nat) :=
   match d.vodDur with
@@ -217,7 +229,8 @@ def liveMpdBody (a : Asset) (sets : List ASDef) (cfg : MpdCfg) (endMS : Nat) : B
   let pt : Nat := match cfg.mpdType with
     | .number => cfg.startS * 1000
     | _ => match walked.head? with
-      | some (_, some (o, se)) => if o.tl.isSome then lastSegAvailMS cfg.startS atoMS se.T se.lsi else cfg.startS * 1000
+      | some (_, some (o, se)) =>
+        if o.tl.isSome then publishMS cfg.startS atoMS (cfg.tsbdS * 1000) endMS se.T se.lsi se.entries else cfg.startS * 1000
       | _ => cfg.startS * 1000
   .ok outs pt
 
